@@ -6,7 +6,7 @@ natural faults, directed boundary probes on both sides of each boundary family, 
 exact-capacity sweeps, the same requests as recipe steps."""
 from __future__ import annotations
 
-from .common import shard, run_cases, BASE_ASSUMPTIONS
+from .common import shard, run_cases, BASE_ASSUMPTIONS, repo_suite, repo_suite_job
 
 ID = 'C03'
 LEVEL = 'exploration'
@@ -42,6 +42,13 @@ def required_buckets(tier):
 
 
 def plan(tier, seed):
+    jobs = _plan(tier, seed)
+    if tier != 'quick' or False:
+        jobs = jobs + repo_suite_job()
+    return jobs
+
+
+def _plan(tier, seed):
     if tier == 'quick':
         return shard('history', 160, 6) + shard('boundary', 160, 8) + shard('sweep', 6, 2) + shard('witness', 1, 1)
     return (shard('history', 3000, 20, big=True) + shard('boundary', 4000, 24) + shard('sweep', 60, 6, full=True)
@@ -49,6 +56,8 @@ def plan(tier, seed):
 
 
 def run_job(job):
+    if job['kind'] == 'repo_suite':
+        return run_cases(job, repo_suite)
     fn = {'history': history, 'boundary': boundary, 'sweep': sweep, 'witness': witness}[job['kind']]
     return run_cases(job, fn)
 
@@ -99,9 +108,16 @@ def boundary(rng, case, idx):
     big = C('bigdst')
     state = tuple(sorted((x.name, a) for x, a in s.contents.items()))
     # ---- B1 over-draw in each unit, B2 negative
+    from pv.handlers import request_quantum
+
+    def resolvable(base_, m_):
+        """requests are honoured to a quantum (1e-10 g for masses ...): a source holding less than 1e4 quanta is below
+        the resolution at which a relative distance of 3e-6 .. 1e-3 from the boundary means anything"""
+        return m_ > 1e4 * max(request_quantum(base_, s.contents), 1e-300)
+
     for base in R.BASES:
         m = R.measure(s.contents, base)
-        if m <= 0:
+        if m <= 0 or not resolvable(base, m):
             continue
         for d in DIST:
             q = spell(rng, m * (1 + d), base, exact=True)
@@ -259,7 +275,7 @@ def boundary(rng, case, idx):
     # ---- B8 the same requests as recipe steps: refused at bake with ValueError, accepted otherwise
     for base in R.BASES:
         m = R.measure(s.contents, base)
-        if m <= 0:
+        if m <= 0 or not resolvable(base, m):
             continue
         for d, must in ((-0.5, 'accept'), (0.5, 'refuse')):
             q = spell(rng, m * (1 + d), base)
